@@ -8,8 +8,20 @@ use std::{
     num::{NonZeroU32, NonZeroU64},
     ops::AddAssign,
     ops::{Index, IndexMut},
-    sync::atomic::{AtomicU64, Ordering},
 };
+
+#[cfg(not(zydeco_verif))]
+use std::sync::atomic::{AtomicU64, Ordering};
+#[cfg(zydeco_verif)]
+use verif_sync::{AtomicU64, Ordering};
+
+/// Verification hook, compiled only with `--cfg zydeco_verif`: the atomic behind the key-space
+/// counter comes from a file named by the `ZYDECO_VERIF_SYNC` environment variable, so that a
+/// controlled scheduler can make each of its operations a scheduling point.
+#[cfg(zydeco_verif)]
+mod verif_sync {
+    include!(env!("ZYDECO_VERIF_SYNC"));
+}
 
 /* ---------------------------------- Index --------------------------------- */
 
